@@ -183,6 +183,9 @@ func writeBag(s *slip.Scope, obj *flavors.Instance, args slip.List, depth int) (
 					":time-format", ":time-wrap", ":json", ":color")
 			}
 		}
+		if pos < len(args) {
+			slip.ErrorPanic(s, depth, "extra arguments that are not keyword and value pairs")
+		}
 	}
 	var b []byte
 	switch {
